@@ -12,7 +12,8 @@ CONSTANTS POR
 VARIABLE last
 ASSUME JsonSerialize("catalog.json", <<[tx |-> TX, genesis |-> GenesisOuts, award |-> Award, keys |-> KeySeq, addrs |-> Addrs,
                                         req |-> ReqDef, fam |-> Fam, lk |-> LK, kvnames |-> SetToSeq(KvNames),
-                                        kvpool |-> KvPoolFull, tokpool |-> TokPoolFull]>>)
+                                        mixnames |-> SetToSeq(MixNames), txrank |-> TxRank,
+                                        kvpool |-> KvPoolFull, tokpool |-> TokPoolFull, mixpool |-> MixPoolFull]>>)
 gvars == <<vars, last>>
 Beh == [sc |-> sc, sched |-> hist,
         pred |-> [res |-> [p \in Procs |-> res[p].c], obs |-> ObsOfDb(db)]]
